@@ -127,6 +127,18 @@ PROPS = {
         trusted=["test validator (rank-induced Select) stands for /pk and /ipns", "scripted MessageSender + simnet + synctest"],
         shards={"quick": 8, "thorough": 16},
     ),
+    "C06": dict(
+        pkg=".", test="TestVerifC06", model="C06", verdict="C06v", level="proof", diff_is_failure=True,
+        accept=lambda m, o: m == "-" or m == "recipients=*" or all((" " + t + " ") in (" " + o + " ") for t in m.split(" ")),
+        rule="a case is a PutValue (valid/invalid value, optional better/worse local record), a Provide (classic or optimistic; "
+             "advertised address classes with and without a filter, possibly none passing) or a value search on a scripted "
+             "network with failing/unreachable/silent peers, an arrival order and optional cancellation; the multiset of "
+             "PUT_VALUE / ADD_PROVIDER recipients with their payloads is compared with the publish plan of the model applied "
+             "to the lookup result the lookup model computes from the concrete release log; non-trivial = faulty peers and "
+             ">=3 events; distinct = case text",
+        trusted=["scripted MessageSender + simnet + synctest", "the optimistic-provide stop rule (network size estimate) is not modelled: recipients of optimistic provides are checked by the verdict rules only"],
+        shards={"quick": 8, "thorough": 16},
+    ),
     "C08": dict(
         pkg=".", test="TestVerifC08", model="C08", verdict="C08v", level="proof", diff_is_failure=True,
         accept=lambda m, o: m == "-" or m == "pseq=*" or (" " + m + " ") in (" " + o + " "),
